@@ -175,6 +175,23 @@ pub struct Accepted {
     /// (account, commodity) pairs that the balance report holds with an exactly zero value
     /// (Report.tla NoZeroCommodity: balances never keep a cancelled-out commodity)
     pub zero_entries: Vec<(String, String)>,
+    /// query-side lookups (Ledger.tla Lookup): ("acct"|"cmdt", name) -> what the name answers with
+    pub lookups: Vec<LookupObs>,
+}
+
+#[derive(Debug, Clone, PartialEq)]
+pub struct LookupObs {
+    pub table: &'static str,
+    pub name: String,
+    /// ReportContext::account / ::commodity
+    pub resolved: Option<String>,
+    /// accounts: number of postings `Ledger::postings` lists for the name; commodities: `Ledger::eval("1 <name>")` as printed
+    pub answer: String,
+}
+
+thread_local! {
+    /// the names the next `run_process` asks the loaded ledger about (accounts, commodities)
+    pub static QUERY_NAMES: std::cell::RefCell<(Vec<String>, Vec<String>)> = std::cell::RefCell::new((Vec::new(), Vec::new()));
 }
 
 pub enum Outcome {
@@ -268,7 +285,20 @@ pub fn project_ledger<'c>(ctx: &ReportContext<'c>, ledger: &mut query::Ledger<'c
             bal.insert(a.as_str().to_string(), m);
         }
     }
-    Ok(Accepted { reg, bal, zero_entries })
+    let (qa, qc) = QUERY_NAMES.with(|q| q.borrow().clone());
+    let mut lookups = Vec::new();
+    for n in qa {
+        let resolved = ctx.account(&n).map(|a| a.as_str().to_string());
+        let count = ledger.postings(ctx, &query::PostingQuery { account: Some(n.clone()) }).len();
+        lookups.push(LookupObs { table: "acct", name: n, resolved, answer: count.to_string() });
+    }
+    for n in qc {
+        let resolved = ctx.commodity(&n).map(|c| c.as_str().to_string());
+        let ec = query::EvalContext { date: chrono::NaiveDate::from_ymd_opt(2024, 1, 1).unwrap(), exchange: None };
+        let answer = match ledger.eval(ctx, &format!("1 {}", n), &ec) { Ok(a) => format!("{}", a.as_inline_display()), Err(e) => format!("error: {}", e) };
+        lookups.push(LookupObs { table: "cmdt", name: n, resolved, answer });
+    }
+    Ok(Accepted { reg, bal, zero_entries, lookups })
 }
 
 pub fn run_process(text: &str) -> Outcome {
@@ -359,7 +389,15 @@ pub fn replay(idx: usize, rec: &Value) -> Value {
 pub fn replay_with(_idx: usize, rec: &Value, format_first: bool) -> Value {
     let r = render_with(&rec["input"], format_first);
     let ex = &rec["expect"];
+    let names = |t: &Value| -> Vec<String> { t.as_object().map(|o| o.keys().cloned().collect()).unwrap_or_default() };
+    QUERY_NAMES.with(|q| {
+        let (mut a, mut c) = (names(&ex["lookup_acct"]), names(&ex["lookup_cmdt"]));
+        a.push("Never:Mentioned".to_string());
+        c.push("NEVERMENTIONED".to_string());
+        *q.borrow_mut() = (a, c);
+    });
     let out = run_process(&r.text);
+    QUERY_NAMES.with(|q| *q.borrow_mut() = (Vec::new(), Vec::new()));
     let mut viols = Vec::new();
     let lenient: Vec<usize> = ex["lenient"].as_array().map(|a| a.iter().map(|x| x.as_u64().unwrap() as usize).collect()).unwrap_or_default();
     let observed;
@@ -457,6 +495,22 @@ pub fn replay_with(_idx: usize, rec: &Value, format_first: bool) -> Value {
                 }
                 if want_bal != acc.bal && viols.is_empty() {
                     viols.push(viol("balance", format!("balances {:?}, specification says {:?}", acc.bal, want_bal)));
+                }
+                // query-side lookups: Ledger.tla Lookup over the final intern tables
+                for l in &acc.lookups {
+                    if !viols.is_empty() { break; }
+                    let want = ex[if l.table == "acct" { "lookup_acct" } else { "lookup_cmdt" }].get(&l.name).and_then(|v| v.as_str()).map(|s| s.to_string());
+                    if l.resolved != want {
+                        viols.push(viol("lookup", format!("asking for {} `{}` answers {:?}, the specification's intern table says {:?}", if l.table == "acct" { "account" } else { "commodity" }, l.name, l.resolved, want)));
+                        continue;
+                    }
+                    if l.table == "acct" {
+                        // the register's account filter compares the written name (it is to become a pattern); not part of the claim
+                    } else if let Some(w) = &want {
+                        if l.answer != format!("1 {}", w) {
+                            viols.push(viol("lookup_eval", format!("evaluating `1 {}` gives `{}`, expected `1 {}`", l.name, l.answer, w)));
+                        }
+                    }
                 }
                 if !acc.zero_entries.is_empty() && viols.is_empty() {
                     viols.push(viol("zero_commodity_in_balance", format!("the balance keeps commodities with an exactly zero value: {:?} (a commodity that cancels out is no longer held)", acc.zero_entries)));
